@@ -304,9 +304,12 @@ def oracle(ctx: vlib.Ctx, n_schemas: int, n_values: int, focus: str | None = Non
         dialect_mode = rng.random() < 0.3
         S = L.Schema(rng, jsonkind, dialect_mode=dialect_mode)
         depth = rng.choice([1, 2, 2, 3])
-        if rng.random() < 0.14:
+        if dialect_mode and rng.random() < 0.35:
+            # a self-referencing root whose per-format methods may first be compiled under a call-time dialect
+            root = S.new_dc(depth, root=True, force_self=rng.choice([True, "name"]))
+        elif rng.random() < 0.14:
             # the root is a subclass (adding fields) of a self-referencing class
-            sb = S.new_dc(max(depth - 1, 1), force_self=True)
+            sb = S.new_dc(max(depth - 1, 1), force_self=rng.choice([True, True, "name"]))
             root = S.new_dc(depth, root=True, base=sb.name)
         else:
             root = S.new_dc(depth, root=True)
@@ -480,10 +483,18 @@ def correspondence_cases(ctx: vlib.Ctx, n_schemas: int, n_values: int):
         jsonkind = rng.choice(["json", "orjson"])
         # 40% of the schemas enable ADD_DIALECT_SUPPORT and are driven with a call-time dialect: one that covers
         # nothing, or one that overrides a type some format dialect declares native (both directions)
-        dm = rng.random() < 0.4
+        # systematic part of the stream (one schema in four): a self-referencing root (by name / typing.Self / as a
+        # subclass adding fields), half of them first used with a call-time dialect - the first format call compiles
+        # the per-format methods on demand, with or without a dialect
+        sysk = si % 8 if si % 2 == 0 else None
+        dm = (sysk in (0, 2, 4)) if sysk is not None else rng.random() < 0.4
         S = L.Schema(rng, jsonkind, small=True, dialect_mode=dm)
-        if rng.random() < 0.12:
-            sb = S.new_dc(1, force_self=True)
+        if sysk in (0, 6):
+            root = S.new_dc(rng.choice([1, 2]), root=True, force_self="name")
+        elif sysk == 2:
+            root = S.new_dc(rng.choice([1, 2]), root=True, force_self=True)
+        elif sysk == 4 or rng.random() < 0.12:
+            sb = S.new_dc(1, force_self=rng.choice([True, "name"]))
             root = S.new_dc(rng.choice([1, 2]), root=True, base=sb.name)
         else:
             root = S.new_dc(rng.choice([1, 2, 2, 3]), root=True)
@@ -512,9 +523,6 @@ def correspondence_cases(ctx: vlib.Ctx, n_schemas: int, n_values: int):
                         continue
                     if F == "orjson" and has_orjson_bad_time(v) and orjson_time_defect_present():
                         ctx.hist("correspondence_skipped", "orjson-library-time-defect")
-                        continue
-                    if dm and F in ("orjson", "msgpack", "toml") and reaches_selfref_by_name(S, root):
-                        ctx.hist("correspondence_skipped", "known-finding-call-dialect-self-by-name")
                         continue
                     entry = L.Entry(F, "mixin", rootcls, dialect=xd)
                     nb = entry.native_tree(v)
